@@ -26,7 +26,7 @@ def seeds():
     }
     return out
 
-WRONG = [5, "s", None, [], {}, True]
+WRONG = [5, "s", None, [], {}, True, [1]]
 
 def walk(d, path=()):
     """Yield (path, parent container, key) for every member of every object and every array element."""
@@ -182,10 +182,12 @@ def _healthy_job(args):
                         {"op": "start", "machine": "h", "name": "h2", "input": {"k": 2}, "after_quiet": True}]
     sc["expect"] = {exec_arn("h", "h1"): {"status": "SUCCEEDED", "output": {"h": 1}}, exec_arn("h", "h2"): {"status": "SUCCEEDED", "output": {"h": 1}}}
     try:
-        r = explore(sc, lambda: monsets.healthy(sc), bound=2, max_states=3000, only=["M-ref", "M-escape", "M-drain"])
+        r = explore(sc, lambda: monsets.healthy(sc), bound=2, max_states=3000, only=["M-ref", "M-escape", "M-drain", "M-life"])
     except Exception as e:
         return {"error": "%s: %s" % (type(e).__name__, str(e)[:200]), "states": 0, "transitions": 0, "violations": []}
     viols = [v.to_json() for v, tr, p in r.violations]
+    # "at worst fails its own execution with a terminal FAILED status": an execution that was announced RUNNING must end, and end once
+    viols = [v for v in viols if v["monitor"] != "M-life" or (v["kind"] == "never_terminal" and "RUNNING" in v["detail"]) or v["kind"] in ("second_running", "notification_after_terminal")]
     # the healthy executions must both have reached SUCCEEDED on every explored schedule: outcomes record it
     bad_out = [k for k in r.outcomes if k.count("SUCCEEDED") < 2 + (1 if False else 0)]
     return {"states": r.states, "transitions": r.transitions, "violations": viols, "bad_outcomes": bad_out[:2], "paths": r.replays + 1}
@@ -203,8 +205,11 @@ def run(tier, seed):
     hjobs = []
     for sname in ("pass-chain", "choice", "parallel"):
         ms = mutations(sd[sname])
-        for desc, m in ms[:: (7 if tier == "quick" else 2)]:
-            hjobs.append(("definition", m))
+        for i, (desc, m) in enumerate(ms):
+            # every mutant that replaces a whole state (at any nesting level) by a wrong JSON type, and a regular sample of the rest
+            whole_state = desc.startswith("retype ") and desc.split(" ")[1].split("/")[-2:-1] == ["States"]
+            if whole_state or i % (7 if tier == "quick" else 2) == 0:
+                hjobs.append(("definition", m))
     for v in vals[:: (3 if tier == "quick" else 1)]:
         hjobs.append(("definition", v))
         hjobs.append(("event", json.dumps(v)))
